@@ -7,7 +7,7 @@ kind = the primitive operation that performs the write (`assign`, `Vec::push`,
 """
 from collections import defaultdict
 
-from flow import Flows, SHALLOW_MUT, L
+from flow import Flows, SHALLOW_MUT, L, _LocalOperand
 
 
 def prim_kind(short_name):
@@ -122,6 +122,10 @@ class Effects:
             if d.rv.k == "use" and d.rv.ops:
                 # a closure bound to a variable and then copied / moved into the call
                 op = d.rv.ops[0]
+                continue
+            if d.rv.k == "ref" and d.rv.place is not None and not d.rv.place.proj:
+                # `&closure` handed to the adaptor (`.map(&per_item)`): `&F` is itself `Fn`
+                op = _LocalOperand(d.rv.place.local, fl.b.local_ty(d.rv.place.local))
                 continue
             return None
         return None
